@@ -15,6 +15,13 @@
 #include <stdint.h>
 #include "internal.h"
 
+/* -DOOM3_SINGLE_FAULT: stated bound "at most one allocation fails" (the single-fault part of the property's quantifier)
+ * for jobs whose every-combination version does not finish; the job's level/bound says so. */
+#ifdef OOM3_SINGLE_FAULT
+#define OOM3_FAULT_BOUND __CPROVER_assume(g_alloc_failed <= 1)
+#else
+#define OOM3_FAULT_BOUND ((void)0)
+#endif
 long g_live;                 /* funnel blocks currently live */
 unsigned g_alloc_failed;     /* number of funnel allocations that returned NULL */
 
@@ -23,6 +30,7 @@ void *KSI_malloc(size_t size) {
 	if (size == 1) p = malloc(1); else if (size == 2) p = malloc(2); else if (size == 3) p = malloc(3); else if (size == 4) p = malloc(4);
 	else p = malloc(size);
 	if (p != NULL) g_live++; else g_alloc_failed++;
+	OOM3_FAULT_BOUND;
 	return p;
 }
 void *KSI_calloc(size_t num, size_t size) {
@@ -31,6 +39,7 @@ void *KSI_calloc(size_t num, size_t size) {
 	else if (num == 0x10003) p = calloc(0x10003, size);
 	else p = calloc(num, size);
 	if (p != NULL) g_live++; else g_alloc_failed++;
+	OOM3_FAULT_BOUND;
 	return p;
 }
 void KSI_free(void *ptr) { if (ptr != NULL) { g_live--; free(ptr); } }
